@@ -17,7 +17,7 @@ func init() { Checks["C19"] = CheckC19 }
 var c19Funcs = []string{"ReadFloat64", "ReadInt64", "ReadUint64", "ReadInt32", "ReadUint32", "ReadInt", "ReadUint", "ReadBool", "ReadNull",
 	"NextToken", "NextTokenType", "DecodeFloat64", "DecodeInt64", "DecodeUint64", "DecodeInt32", "DecodeUint32", "DecodeInt", "DecodeUint", "DecodeBool",
 	"SkipValue", "SkipValueFast", "Valid", "HandleArrayValues", "HandleObjectValues", "ReadStringBytes", "UnescapeStringContent",
-	"HandleArrayValues/recursive", "HandleObjectValues/recursive"}
+	"HandleArrayValues/recursive", "HandleObjectValues/recursive", "ReadStringBytes/arena", "UnescapeStringContent/arena"}
 
 // walker is a pre-allocated, non-allocating handler that re-enters the library on every
 // container member with the very Buffer of the enclosing call (the natural recursive
@@ -130,6 +130,12 @@ func (z *zcase) run() bool {
 		_, err = rjson.HandleArrayValues(z.in, z.w, z.buf)
 	case 27:
 		_, err = rjson.HandleObjectValues(z.in, z.w, z.buf)
+	case 28:
+		// input and destination are two non-overlapping parts of ONE allocation (a read buffer
+		// whose tail is used as working space)
+		_, _, err = rjson.ReadStringBytes(z.in, z.dst[:0])
+	case 29:
+		_, _, err = rjson.UnescapeStringContent(z.in, z.dst[:0])
 	}
 	return err == nil
 }
@@ -144,6 +150,11 @@ func newZcase(fn int, in []byte) (*zcase, bool) {
 	}
 	if fn == 24 || fn == 25 {
 		z.dst = make([]byte, 0, len(in)+8)
+	}
+	if fn == 28 || fn == 29 {
+		arena := make([]byte, len(in), 2*len(in)+16)
+		copy(arena, in)
+		z.in, z.dst = arena[:len(in)], arena[len(in):len(in)]
 	}
 	ok := false
 	if err := core.Catch(func() error { ok = z.run() && z.run(); return nil }); err != nil {
@@ -257,7 +268,7 @@ func c19Nontrivial(fn int, in []byte) bool {
 		if e := ref.Number(in, i); e > 0 {
 			return floatNontrivial(in[i:e])
 		}
-	case fn == 24 || fn == 25:
+	case fn == 24 || fn == 25 || fn == 28 || fn == 29:
 		for _, c := range in {
 			if c == '\\' {
 				return true
